@@ -106,6 +106,34 @@ theorem abbrev_parse (mode : Mode) (P : Prog) (pre post : List Str) (k k' g3 : S
   exact abbrev_sim' ext mode _ _ _ k k' (attached g3) hs
     (isOption_long k g3 mode hk hkq hg) (isOption_long k' g3 mode hk' hkq' hg) h h'
 
+/-- **Whole command line: an ambiguous abbreviation fails the parse.**  An option token given at a head
+position whose name is not a declared key and is a prefix of two or more keys of the level reached makes the
+finished parse fail with the ambiguity error that quotes the token and lists *all* the candidates, sorted; no
+option changes because of it or after it, nothing after it is interpreted, the remaining list stays what it was. -/
+theorem ambiguous_parse (mode : Mode) (P : Prog) (pre post : List Str) (t : Str) (p : Pair) (k1 k2 : Str)
+    (ks : List Str)
+    (he : (run ext mode P pre).err = none) (hc : (run ext mode P pre).ctx = .idle)
+    (hopt : isOption t mode = ([p], true))
+    (hr : resolve ((run ext mode P pre).P.node (run ext mode P pre).cur) p.opt = k1 :: k2 :: ks) :
+    let r := parseArgs ext mode P (pre ++ t :: post)
+    r.err = some (.ambiguous t (sortStrs (k1 :: k2 :: ks))) ∧ r.P = (run ext mode P pre).P ∧
+      r.rem = (run ext mode P pre).rem ∧ r.cur = (run ext mode P pre).cur := by
+  have hd : t ≠ dashdash := by intro e; subst e; simp [isOption, dashdash] at hopt
+  have h1 : step ext mode (run ext mode P pre) t =
+      { headState (run ext mode P pre) t with
+        pending := []
+        err := some (.ambiguous t (sortStrs (k1 :: k2 :: ks))) } := by
+    rw [step_head_option ext mode _ t [p] he hc hd hopt]
+    unfold drain
+    simp only
+    rw [procPair_amb ext _ p k1 k2 ks (by simpa [headState] using hr)]
+    simp [headState]
+  simp only [parseArgs]
+  rw [run_append]
+  simp only [List.foldl_cons]
+  rw [h1, foldl_err ext mode _ post (by simp), finish_err ext _ (by simp)]
+  simp [headState]
+
 /-! Non-vacuity on a concrete program: nested prefixes `v` / `verbose`, abbreviation `--verb`,
 ambiguity `--n` between `name`, `n`(exact wins) and `num`. -/
 example : resolve (Demo.prog.node 0) (b "verb") = [b "verbose"] ∧
